@@ -3,7 +3,8 @@
    fee_get_asserted_max_value) are REGENERATED from tealer/analyses/dataflow/transaction_context/fee_field.py
    on every run (Gen/Leaves.v). *)
 From Coq Require Import ZArith List Bool.
-From Tealer Require Import LeafPrelude Tables Leaves Domains LeafLemmas.
+From Coq Require Import String.
+From Tealer Require Import LeafPrelude Tables Leaves Syntax Keys Analysis Domains LeafLemmas Eval Runs Exec SingleLemmas ExecLemmas.
 
 (* the chain lattice: gamma of a bound is the set of fees below it; union / intersection are exact *)
 Theorem C09_union_exact : forall a b x, fee_gamma (fee_union a b) x <-> fee_gamma a x \/ fee_gamma b x.
@@ -38,6 +39,23 @@ Example C09_example : fst (fee_get_asserted_max_value CLess (mkFee false 1000)) 
   /\ fst (fee_get_asserted_max_value (mirror CLess) (mkFee false 1000)) = fee_universal_set.
 Proof. split; reflexivity. Qed.
 
+(* END TO END (Spec/Exec.v): every concrete execution of the contract that approves the transaction -- any
+   arity-respecting semantics of the opcodes outside the fragment, loops, shared / nested subroutines -- has
+   Fee <= the bound the analysis reports for EVERY block it passes through.
+   Hypotheses: graph_ok (mirror / coverage facts, C05_function_graph_wf establishes them for structured
+   programs), fee_leaves_ok (every Fee comparison is against an integer constant known to the tool: the
+   documented heuristic for other comparands is outside the claim), Accepts (ends at a `return`, every call
+   returns: known findings D4 / D17 are exactly the excluded shapes). *)
+Theorem C09_sound_end_to_end : forall e sem f fee bc fuel lo cfgs,
+  sem_ok e sem -> env_ok e -> fn_intcs f = e_intcs e -> graph_ok f ->
+  e_field e (e_own e) "Fee"%string = VInt fee -> (0 <= fee <= MAX_UINT64z)%Z ->
+  fee_leaves_ok f KSelf ->
+  init_constraints feeval fee_universal_set fee_null_set fee_union fee_intersection (fee_single (fn_intcs f) KSelf) f = Some bc ->
+  solve feeval feeval_eqb fee_universal_set fee_null_set fee_union fee_intersection (fee_single (fn_intcs f) KSelf) f fuel bc = Done lo ->
+  Accepts e sem f cfgs ->
+  forall b st, In (b, st) cfgs -> exists v, Analysis.lookup feeval lo b = Some v /\ fee_gamma v fee.
+Proof. exact C09_sound. Qed.
+
 Print Assumptions C09_union_exact.
 Print Assumptions C09_intersection_exact.
 Print Assumptions C09_single_check_sound_true.
@@ -45,3 +63,4 @@ Print Assumptions C09_single_check_sound_false.
 Print Assumptions C09_single_check_exact.
 Print Assumptions C09_single_check_tight.
 Print Assumptions C09_mirror.
+Print Assumptions C09_sound_end_to_end.
